@@ -9,6 +9,7 @@ CONSTANTS
     FIX_BODY = FALSE
     FIX_TLS13 = FALSE
     FIX_NOUSER = FALSE
+    FIX_XFF = FALSE
 INVARIANTS TypeOK VocabularyComplete ValueEqualsFunction OriginalVsRewritten EscapedFormsAreEscapes LogSafe HeaderSafe
            BodyUntouched TimeMonotone TLSFieldsExact CustomBeatsBuiltin
 CHECK_DEADLOCK FALSE
